@@ -207,6 +207,18 @@ def run(pid, tier, seed, ev, count, hostile_names=False, modes=("t", "x", "e", "
                             pre.add(g.path)
                         except OSError:
                             pass
+            # an extraction whose output file cannot be created (a directory sits at its path): no bytes are produced, so the member
+            # must be reported as a failure however good its data is (Cli!Output with produced = 0, good = FALSE)
+            blocked = set()
+            if mode in ("x", "e") and "n" not in opts and "i" not in opts and rng.random() < 0.3:
+                for g in ms:
+                    if g.kind == "file" and g.outer is None and rng.random() < 0.5 and b"\0" not in g.path and g.method.decode("latin1") in RG.SUPPORTED \
+                            and not any(o is not g and (o.path.rstrip(b"/") == g.path or o.path.startswith(g.path + b"/")) for o in ms):
+                        try:
+                            os.makedirs(os.path.join(xd.encode(), g.path.lstrip(b"/")))
+                            blocked.add(g.path)
+                        except OSError:
+                            pass
             pr = V.run_bounded([lha.encode(), word.encode(), a.encode()] + filters, capture_output=True, env=V.run_env(),
                                 stdin=subprocess.DEVNULL, timeout=300)
             if pr.returncode < 0 or pr.returncode == 99:
@@ -220,6 +232,8 @@ def run(pid, tier, seed, ev, count, hostile_names=False, modes=("t", "x", "e", "
                 m["good"] = bool(t["good"])
                 m["data"] = t["data"] if (mode == "p" and "n" not in opts) else []
                 m["exists"] = ("i" not in opts or True) and g.path in pre
+                if g.path in blocked:
+                    m["produced"], m["good"] = 0, False
                 mm.append(m)
             events.append({"e": "Run", "cmd": list(word.encode()), "filters": [list(f) for f in filters], "members": mm,
                            "out": list(pr.stdout), "code": pr.returncode, "archive": os.path.basename(a),
